@@ -326,9 +326,7 @@ fn get_prim(loc: Srcloc, prims: Rc<HashMap<Vec<u8>, Rc<SExp>>>, name: &[u8]) -> 
     for kv in prims.iter() {
         let val_borrowed: &SExp = kv.1.borrow();
         if val_borrowed == &myatom {
-            // The same object a lookup by name gives, so that code size
-            // estimates do not depend on how the operator was spelled.
-            return Some(kv.1.clone());
+            return Some(Rc::new(myatom));
         }
     }
     None
@@ -675,7 +673,7 @@ pub fn do_mod_codegen(
 fn is_cons(bf: &BodyForm) -> bool {
     if let BodyForm::Value(v) = bf {
         if let SExp::Atom(_, vec) = v.atomize() {
-            return vec == [4] || vec == [6] || vec == b"r";
+            return vec == [4] || vec == b"r";
         }
     }
 
@@ -1244,8 +1242,10 @@ pub fn hoist_body_let_binding(
                     BodyForm::Call(
                         letdata.loc.clone(),
                         vec![
-                            // Rest, by opcode: a user function may be called r.
-                            Rc::new(BodyForm::Value(SExp::Atom(letdata.loc.clone(), vec![6]))),
+                            Rc::new(BodyForm::Value(SExp::Atom(
+                                letdata.loc.clone(),
+                                "r".as_bytes().to_vec(),
+                            ))),
                             Rc::new(BodyForm::Value(SExp::Atom(
                                 letdata.loc.clone(),
                                 "@*env*".as_bytes().to_vec(),
